@@ -106,6 +106,9 @@ func Load(repo, trustedDir string, only map[string]bool) (*Loader, error) {
 			overlay[gfn] = gb
 		}
 		l.pkgSpecs[pkgPath] = ps
+		for _, k := range ps.InlineExt {
+			l.inlineExternal[k] = true
+		}
 		patterns = append(patterns, "./"+filepath.ToSlash(rel))
 	}
 	if os.Getenv("VERIF_DUMP_GEN") != "" {
